@@ -51,6 +51,12 @@ func processAccessClients(
 			// [accessManager.isBlockedIP].
 			ips.Add(ip.Unmap())
 		} else if ipnet, err = netip.ParsePrefix(s); err == nil {
+			if addr, bits := ipnet.Addr(), ipnet.Bits(); addr.Is4In6() && bits >= 96 {
+				// Client addresses are compared in their unmapped form, so a
+				// subnet of IPv4-mapped addresses is the IPv4 subnet.
+				ipnet = netip.PrefixFrom(addr.Unmap(), bits-96)
+			}
+
 			*nets = append(*nets, ipnet)
 		} else {
 			err = ValidateClientID(s)
